@@ -15,11 +15,16 @@ from harness import api, oracles, descent_kernels as dk
 INF = float("inf")
 
 
-def rank_worse(before_sorted, after_sorted, tol=1e-6):
-    """first rank j at which `after` is worse than `before` (None if never); missing entries count as inf"""
+def rank_worse(before_sorted, after_sorted, tol=1e-6, metric=None):
+    """first rank j at which `after` is worse than `before` (None if never); missing entries count as inf.
+    Values are compared under the float32 tolerance rule of the metric (harness/refmetrics.py: on the pre-image for
+    metrics whose last step amplifies rounding, e.g. hellinger(x, x) = 3e-4 from a 1e-7 error under the sqrt)."""
+    from harness import refmetrics as R
     for j, b in enumerate(before_sorted):
         a = after_sorted[j] if j < len(after_sorted) else INF
         if a > b + tol * max(1.0, abs(b)):
+            if metric is not None and a != INF and R.close(a, b, metric, scale=4.0):
+                continue
             return j, b, a
     return None
 
@@ -76,7 +81,7 @@ def api_init_graph(res, rng, metric, kind, wide=False):
                 seen[int(G[i, j])] = ref[i, j]
         before = sorted(seen.values())[:k]
         after = sorted(float(d) for d, q in zip(dists[i], inds[i]) if q >= 0)
-        w = rank_worse(before, after, tol=2e-5)
+        w = rank_worse(before, after, tol=2e-5, metric=metric)
         if w:
             res.violation("rank:init_graph:%s:%s" % (kind, metric),
                           "row %d rank %d: %r in the supplied initial graph, %r in the result" % (i, w[0], w[1], w[2]), case)
@@ -101,7 +106,7 @@ def api_iters_case(res, rng, metric, kind):
     for i in range(n):
         b = sorted(float(d) for d, q in zip(d0[i], i0[i]) if q >= 0)
         a = sorted(float(d) for d, q in zip(d1[i], i1[i]) if q >= 0)
-        w = rank_worse(b, a)
+        w = rank_worse(b, a, metric=metric)
         if w:
             res.violation("rank:iteration:%s:%s" % (kind, metric),
                           "row %d rank %d: %r after %d iterations, %r after %d" % (i, w[0], w[1], t, w[2], t + 1), case)
@@ -130,7 +135,7 @@ def api_update(res, rng, metric):
         for i in range(rows):
             b = sorted(float(d) for d, q in zip(d0[i], i0[i]) if q >= 0)
             a = sorted(float(d) for d, q in zip(d1[i], i1[i]) if q >= 0)
-            w = rank_worse(b, a)
+            w = rank_worse(b, a, metric=metric)
             if w:
                 res.violation("rank:update:%s" % metric, "after appending %d rows, row %d rank %d went from %r to %r"
                               % (U.shape[0], i, w[0], w[1], w[2]), {**case, "step": step})
